@@ -36,7 +36,7 @@ from pymap.parsing.state import ParsingState, ParsingInterrupt, \
     ExpectContinuation
 from pymap.sockets import InheritedSockets
 from pysasl.creds.server import ServerCredentials
-from pysasl.exception import AuthenticationError
+from pysasl.exception import AuthenticationError, InvalidResponse
 from pysasl.mechanism import ServerChallenge, ChallengeResponse
 
 from .state import ConnectionState
@@ -226,6 +226,9 @@ class IMAPConnection:
                         'Invalid base64 string.') from exc
                 else:
                     responses.append(ChallengeResponse(chal.data, resp_dec))
+            except UnicodeError as exc:
+                # the mechanisms decode identities and secrets as UTF-8
+                raise InvalidResponse() from exc
             else:
                 if final is not None:
                     cont = ResponseContinuation(b64encode(final))
